@@ -151,6 +151,9 @@ class SchemaGen:
             self.sigs[nm] = sig
             self.echo.append(nm)
             qfields.append(dict(sig))
+        # a list-typed input field with a default (a mutable coerced default: it must be a fresh value for every coercion)
+        if not any(f["name"] == "dl" for f in self.inputs[0]["fields"]):
+            self.inputs[0]["fields"].append({"name": "dl", "type": L(N("Int")), "default": vlist([vint(1), vint(2)])})
         # an input type whose field names resemble each other: a mistyped key has several "did you mean" candidates
         near = {"kind": "input", "name": "Near", "fields": [{"name": f"alpha{i}", "type": N("Int"), "default": None} for i in range(1, 5)]}
         self.inputs.append(near)
